@@ -61,7 +61,7 @@ Proof. exact pol_parses_any_case. Qed.
 (* the generated setup -> configuration conversion IS the unit table *)
 (* (export_rounds_idler_waist_position: whether the code rounds the idler waist position, read off the source; the unit table's
    only parameter) *)
-Theorem C16_as_config_is_unit_table : forall U s, as_config R_ops U s = as_config_spec export_rounds_idler_waist_position U s.
+Theorem C16_as_config_is_unit_table : forall U s, as_config R_ops U s = as_config_spec export_rounds_idler_waist_position export_rounds_gaussian_fwhm U s.
 Proof. exact as_config_matches_spec. Qed.
 
 (* every exported number is within 0.5e-4 of the physical value in the field's unit; idler, crystal angle and waist
@@ -85,24 +85,43 @@ Theorem C16_roundtrip : forall U s,
               exists z, bc_waist_pos_um ic = Param z /\ close4 z (s_zi s / micro)) /\
   match s_pp s with
   | PolOff => c_pp c = PCOff
-  | PolOn period _ a => exists p, c_pp c = PCConfig (Param p) (apod_spec a) /\ close4 p (period / micro)
+  | PolOn period _ a => exists p, c_pp c = PCConfig (Param p) (apod_spec export_rounds_gaussian_fwhm a) /\ close4 p (period / micro)
   end /\
   close4 (c_deff c) (s_deff s / (pico / u_volt U)).
 Proof. exact roundtrip_within. Qed.
+
+(* FULL STRENGTH for the code as it is now: the idler waist position is rounded too (the statement's `true` is the obligation
+   export_rounds_idler_waist_position = true), so EVERY exported number is the physical value rounded to 4 decimals -- an
+   integer multiple of 1e-4 (at most 4 fractional digits: such numbers of moderate size have at most 15 significant digits and
+   survive serde_json's default float parser; that last step is validated per run, serde/ryu are external).  Passed through
+   unrounded: pump.spectrum_threshold and the apodization parameters -- the Gaussian FWHM in um is re-derived as fwhm/1e-6 and can
+   carry 17 digits (flag export_rounds_gaussian_fwhm, false on the current tree: reported by the check as a JSON-lossy finding). *)
+Theorem C16_as_config_is_unit_table_now : forall U s, as_config R_ops U s = as_config_spec true export_rounds_gaussian_fwhm U s.
+Proof. exact as_config_now_unit_table. Qed.
+
+Theorem C16_exported_numbers_four_decimals : forall U s,
+  let c := as_config R_ops U s in
+  dec4 (cc_phi_deg (c_crystal c)) /\ (forall t, cc_theta_deg (c_crystal c) = Param t -> dec4 t) /\
+  dec4 (cc_length_um (c_crystal c)) /\ dec4 (cc_temperature_c (c_crystal c)) /\
+  dec4 (pc_wavelength_nm (c_pump c)) /\ dec4 (pc_waist_um (c_pump c)) /\ dec4 (pc_bandwidth_nm (c_pump c)) /\
+  dec4 (pc_power_mw (c_pump c)) /\
+  beam_cfg_dec4 (c_signal c) /\ (forall ic, c_idler c = Param ic -> beam_cfg_dec4 ic) /\
+  (forall p a, c_pp c = PCConfig (Param p) a -> dec4 p) /\ dec4 (c_deff c).
+Proof. exact exported_numbers_four_decimals. Qed.
 
 Theorem C16_round4 : forall x, round4 (round4 x) = round4 x /\ Rabs (round4 x - x) <= / 20000.
 Proof. exact (fun x => conj (round4_idempotent x) (round4_err x)). Qed.
 
 (* converting the exported configuration again reproduces it exactly (all oracles), for setups whose exported angles are
    not at the wrap-around of their range (there 360.0000 re-imports as 0; Findings/C16_wrap.v) *)
-Theorem C16_stable : forall U K minpos s, reimportable U s ->
-  exists s2, try_as_spdc_steps R_ops U K minpos (as_config R_ops U s) = Ok (s2, []) /\
+Theorem C16_stable : forall U K minpos rj s, reimportable U s ->
+  exists s2, try_as_spdc_steps R_ops U K minpos rj (as_config R_ops U s) = Ok (s2, []) /\
              as_config R_ops U s2 = as_config R_ops U s.
-Proof. exact (fun U K minpos s => stable U K minpos export_rounds_idler_waist_position s eq_refl). Qed.
+Proof. exact (fun U K minpos rj s => stable U K minpos rj export_rounds_gaussian_fwhm export_rounds_idler_waist_position s eq_refl eq_refl). Qed.
 
 (* ================================================================================================ auto = explicit *)
-Theorem C16_auto_is_explicit : forall num (o : NumOps num) U K minpos (c : spdc_cfg num) s nf,
-  try_as_spdc_steps o U K minpos c = Ok (s, nf) ->
+Theorem C16_auto_is_explicit : forall num (o : NumOps num) U K minpos rj (c : spdc_cfg num) s nf,
+  try_as_spdc_steps o U K minpos rj c = Ok (s, nf) ->
   (cc_theta_deg (c_crystal c) = Auto ->
      optimum_theta o K (cfg_cs0 o c) (s_signal s) (s_pump s) = Ok (cs_theta (s_crystal s)) /\
      s_crystal s = set_crystal_theta (cfg_cs0 o c) (cs_theta (s_crystal s))) /\
@@ -137,8 +156,8 @@ Proof.
         (conj default_decimals_documented default_symbols_documented))).
 Qed.
 
-Theorem C16_omitted_threshold : forall num (o : NumOps num) U K minpos (c : spdc_cfg num) s nf,
-  pc_threshold (c_pump c) = None -> try_as_spdc_steps o U K minpos c = Ok (s, nf) -> s_threshold s = nQ o spec_spectrum_threshold.
+Theorem C16_omitted_threshold : forall num (o : NumOps num) U K minpos rj (c : spdc_cfg num) s nf,
+  pc_threshold (c_pump c) = None -> try_as_spdc_steps o U K minpos rj c = Ok (s, nf) -> s_threshold s = nQ o spec_spectrum_threshold.
 Proof. exact omitted_threshold_is_default. Qed.
 
 (* ---- non-vacuity *)
@@ -158,6 +177,8 @@ Print Assumptions C16_pol_parses.
 Print Assumptions C16_pol_any_case.
 Print Assumptions C16_as_config_is_unit_table.
 Print Assumptions C16_roundtrip.
+Print Assumptions C16_as_config_is_unit_table_now.
+Print Assumptions C16_exported_numbers_four_decimals.
 Print Assumptions C16_round4.
 Print Assumptions C16_stable.
 Print Assumptions C16_auto_is_explicit.
